@@ -359,11 +359,50 @@ func (c *vCustomI) Unmarshal(conf *Conf) error { return conf.Unmarshal(c, WithIg
 type vPlainS struct {
 	X string `mapstructure:"x"`
 }
+
+// a DEFINED string type (kind string, type != string), like configopaque.String, and a defined int type
+type vNamedStr string
+type vNamedInt int
+type vNamedS struct {
+	X vNamedStr `mapstructure:"x"`
+}
+type vNamedI struct {
+	X vNamedInt `mapstructure:"x"`
+}
 type vPlainI struct {
 	X int `mapstructure:"x"`
 }
 
 var vPendingDiffs []string
+
+// the public views of a resolved Conf (ToStringMap, Get) must hold the TYPED values, never the internal
+// expandedValue{Value, Original} pair
+var vPendingLeaks []string
+
+func vFindWrapper(v any, path string) string {
+	switch x := v.(type) {
+	case expandedValue:
+		return fmt.Sprintf("%s holds the internal wrapper confmap.expandedValue{Value:%#v, Original:%q}", path, x.Value, x.Original)
+	case []any:
+		for i, e := range x {
+			if w := vFindWrapper(e, path+"["+strconv.Itoa(i)+"]"); w != "" {
+				return w
+			}
+		}
+	case map[string]any:
+		ks := make([]string, 0, len(x))
+		for k := range x {
+			ks = append(ks, k)
+		}
+		sort.Strings(ks)
+		for _, k := range ks {
+			if w := vFindWrapper(x[k], path+"[\""+k+"\"]"); w != "" {
+				return w
+			}
+		}
+	}
+	return ""
+}
 
 func vCustomCheck(conf *Conf, key string) {
 	val := conf.unsanitizedGet(key)
@@ -387,6 +426,10 @@ func vCustomCheck(conf *Conf, key string) {
 	if got := show(func() (any, error) { err := nested.Unmarshal(&ns, WithIgnoreUnused()); return ns.C.X, err }()); got != wantS {
 		vPendingDiffs = append(vPendingDiffs, fmt.Sprintf("key %s: a string field of a NESTED struct with a custom Unmarshaler receives %s, of a plain struct %s", key, got, wantS))
 	}
+	var nsd vNamedS
+	if got := show(func() (any, error) { err := flat.Unmarshal(&nsd, WithIgnoreUnused()); return string(nsd.X), err }()); got != wantS {
+		vPendingDiffs = append(vPendingDiffs, fmt.Sprintf("key %s: a field of a DEFINED string type (type T string) receives %s, a plain string field %s", key, got, wantS))
+	}
 	var sq struct {
 		vCustomS `mapstructure:",squash"`
 	}
@@ -398,6 +441,10 @@ func vCustomCheck(conf *Conf, key string) {
 		C vCustomI `mapstructure:"c"`
 	}
 	wantI := show(func() (any, error) { err := flat.Unmarshal(&pi, WithIgnoreUnused()); return pi.X, err }())
+	var nid vNamedI
+	if got := show(func() (any, error) { err := flat.Unmarshal(&nid, WithIgnoreUnused()); return int(nid.X), err }()); got != wantI {
+		vPendingDiffs = append(vPendingDiffs, fmt.Sprintf("key %s: a field of a DEFINED int type receives %s, a plain int field %s", key, got, wantI))
+	}
 	if got := show(func() (any, error) { err := nested.Unmarshal(&ni, WithIgnoreUnused()); return ni.C.X, err }()); got != wantI {
 		vPendingDiffs = append(vPendingDiffs, fmt.Sprintf("key %s: an int field of a NESTED struct with a custom Unmarshaler receives %s, of a plain struct %s", key, got, wantI))
 	}
@@ -443,6 +490,16 @@ func vObserveOn(r *Resolver) vObs {
 	strs := map[string]*string{}
 	decs := map[string]vDec{}
 	vPendingDiffs = nil
+	vPendingLeaks = nil
+	if where := vFindWrapper(tsm, "ToStringMap()"); where != "" {
+		vPendingLeaks = append(vPendingLeaks, where)
+	}
+	for _, k := range ks {
+		if where := vFindWrapper(res.conf.Get(k), "Get(\""+k+"\")"); where != "" {
+			vPendingLeaks = append(vPendingLeaks, where)
+			break
+		}
+	}
 	for i, k := range ks {
 		var d vDec
 		dec[i], d = vDecTerm(res.conf, k)
@@ -503,7 +560,25 @@ func vTokTable(r *vRand, c *vCfg) []string {
 	if c.tbl["env:B"].err || strings.ContainsAny(c.tbl["env:B"].str, "$") {
 		c.put("env:B", &vEntry{raw: "vb"})
 	}
+	if c.def != "" && c.def != "env" { // another default scheme: the same names, answered differently
+		c.put(c.def+":A", &vEntry{raw: "D" + vGenLit(r, 1+r.Intn(3), false)})
+		c.put(c.def+":B", vYAML("dvb"))
+		c.put(c.def+":C", &vEntry{raw: "D" + vGenLit(r, r.Intn(3), false)})
+		c.put(c.def+":N", vYAML(strconv.Itoa(5000+r.Intn(1000))))
+		c.put(c.def+":E", vYAML(""))
+	}
 	return names
+}
+
+// the default scheme of a case: none, the collector's "env", or another registered provider
+func vPickDef(r *vRand) string { return []string{"", "env", "env", "alt"}[r.Intn(4)] }
+
+func vSchemesFor(def string, more ...string) []string {
+	out := append([]string{"env"}, more...)
+	if def != "" && def != "env" {
+		out = append(out, def)
+	}
+	return out
 }
 
 func vGenTokens(r *vRand, c *vCfg, names []string) []vTok {
@@ -794,6 +869,16 @@ func (d *vDeep) refName(n string) string {
 	return "env:" + n
 }
 
+// a level-1 entry is registered under env and under the default scheme (scheme-less references reach the latter)
+func (d *vDeep) putL1(n string, it vItem) {
+	d.c.put("env:"+n, &vEntry{raw: it.text})
+	d.l1["env:"+n] = it
+	if d.c.def != "" && d.c.def != "env" {
+		d.c.put(d.c.def+":"+n, &vEntry{raw: it.text})
+		d.l1[d.c.def+":"+n] = it
+	}
+}
+
 func (d *vDeep) semOf(ts []vTok) string {
 	var sb strings.Builder
 	for _, t := range ts {
@@ -853,8 +938,7 @@ func vNewDeep(r *vRand, c *vCfg) *vDeep {
 	for _, n := range []string{"R1", "R2"} {
 		it := d.itemOver(r, d.names, "env:"+d.names[r.Intn(3)])
 		it.text, it.sem = "r"+it.text+"z", "r"+it.sem+"z"
-		c.put("env:"+n, &vEntry{raw: it.text})
-		d.l1["env:"+n] = it
+		d.putL1(n, it)
 	}
 	all := append(append([]string{}, d.names...), "R1", "R2")
 	// YAML flow list / map of double-quoted members; member j is forced to mention a distinct name
@@ -1089,6 +1173,11 @@ func TestVerifC12(t *testing.T) {
 			out.Oracle("custom-unmarshaler-differs", term, dmsg)
 		}
 		vPendingDiffs = nil
+		for _, lmsg := range vPendingLeaks {
+			out.Oracle("internal-wrapper-leaked", term, lmsg)
+			st["internal-wrapper-leaked"]++
+		}
+		vPendingLeaks = nil
 		if seen[term] {
 			st["duplicate-case-skipped"]++
 			return
@@ -1136,6 +1225,70 @@ func TestVerifC12(t *testing.T) {
 		return
 	}
 
+	// the work budget is PER VALUE: 120 values with 100 reference occurrences each (12 000 in total, more than
+	// maxExpansions) resolve, and so does a second Resolve on the same Resolver
+	var manyRes *Resolver
+	var manyCfg *vCfg
+	var manySrcs []any
+	var manyWant map[string]any
+	heavyManyValues := func(pass int) bool {
+		if manyRes == nil {
+			c := vNewCfg("env", "env")
+			c.put("env:W", &vEntry{raw: "w"})
+			c.put("env:V", &vEntry{raw: "v"})
+			m := map[string]any{}
+			want := map[string]any{}
+			for k := 0; k < 120; k++ {
+				key := fmt.Sprintf("v%03d", k)
+				m[key] = "x" + strings.Repeat("${env:W}${V}", 50)
+				want[key] = "x" + strings.Repeat("wv", 50)
+			}
+			srcs := []any{m}
+			c.setSources(srcs)
+			manyRes, manyCfg, manySrcs, manyWant = vNewResolverFor(c, vSrcURIs(1)), c, srcs, want
+		}
+		o := vObserveOn(manyRes)
+		term := vCaseTerm(manyCfg, manySrcs, o)
+		if hung(term, o) {
+			return false
+		}
+		emit(true, term)
+		st["corpus-many-values"]++
+		if o.errCode != -1 || !vEq(manyWant, o.tsm) {
+			out.Oracle("budget-not-per-value", term, fmt.Sprintf("120 values with 100 reference occurrences each, Resolve number %d on the Resolver: class %d (every value is far below the budget of one value)", pass, o.errCode))
+		}
+		return true
+	}
+	heavyManyRefs := func(ns ...int) bool {
+		for _, n := range ns {
+			if vTier() == "quick" && n == 999 {
+				continue
+			}
+			c := vNewCfg("env", "env")
+			var sb strings.Builder
+			for i := 0; i < n; i++ {
+				const al = "abcdefghijklmnopqrstuvwxyzABCDEF"
+				nm := string([]byte{al[i%32], al[i/32]}) // two letters, default scheme: 5 characters per reference
+				c.put("env:"+nm, &vEntry{raw: "w"})
+				sb.WriteString("${" + nm + "}")
+			}
+			srcs := []any{map[string]any{"k": "x" + sb.String()}}
+			c.setSources(srcs)
+			o := vObserve(c, 1)
+			term := vCaseTerm(c, srcs, o)
+			if hung(term, o) {
+				return false
+			}
+			emit(true, term)
+			st["corpus-many-refs"]++
+			want := "x" + strings.Repeat("w", n)
+			if got, _ := o.tsm["k"].(string); o.errCode != -1 || got != want {
+				out.Oracle("expansion-limit", term, fmt.Sprintf("%d distinct references in one value (all resolvable, no cycle): Resolve returned class %d instead of the expanded text", n, o.errCode))
+			}
+		}
+		return true
+	}
+	_ = heavyManyRefs
 	// -- fixed corpus: the strings of the reading-time probe, the two repaired defects, limits
 	{
 		corpus := []struct{ in, want string }{
@@ -1172,21 +1325,12 @@ func TestVerifC12(t *testing.T) {
 				}
 			}
 		}
-		// 150 / 999 / 1000 distinct references in one value all resolve (regression of finding C12-MANYREFS: the former
-		// bound of 1000 rounds refused the 1000)
-		for _, n := range []int{150, 999, 1000} {
-			if vTier() == "quick" && n == 999 {
-				continue
-			}
-			c := vNewCfg("env", "env")
-			var sb strings.Builder
-			for i := 0; i < n; i++ {
-				const al = "abcdefghijklmnopqrstuvwxyzABCDEF"
-				nm := string([]byte{al[i%32], al[i/32]}) // two letters, default scheme: 5 characters per reference
-				c.put("env:"+nm, &vEntry{raw: "w"})
-				sb.WriteString("${" + nm + "}")
-			}
-			srcs := []any{map[string]any{"k": "x" + sb.String()}}
+		// regression of finding C12-WRAPPERLEAK (43b4ee065): receivers: ${file:r}, the file holds references again
+		for _, def := range []string{"env", ""} {
+			c := vNewCfg(def, "env", "file")
+			c.put("env:PORT", vYAML("4317"))
+			c.put("file:r", vYAML("{otlp: {port: \"${env:PORT}\", tags: [a, \"${env:PORT}\"], sub: {deep: \"${env:PORT}\"}}}"))
+			srcs := []any{map[string]any{"receivers": "${file:r}", "plain": "${env:PORT}"}}
 			c.setSources(srcs)
 			o := vObserve(c, 1)
 			term := vCaseTerm(c, srcs, o)
@@ -1194,12 +1338,20 @@ func TestVerifC12(t *testing.T) {
 				return
 			}
 			emit(true, term)
-			st["corpus-many-refs"]++
-			want := "x" + strings.Repeat("w", n)
-			if got, _ := o.tsm["k"].(string); o.errCode != -1 || got != want {
-				out.Oracle("expansion-limit", term, fmt.Sprintf("%d distinct references in one value (all resolvable, no cycle): Resolve returned class %d instead of the expanded text", n, o.errCode))
+			st["corpus-wrapper-regression"]++
+			wantV := map[string]any{"plain": 4317, "receivers": map[string]any{"otlp": map[string]any{"port": 4317, "tags": []any{"a", 4317}, "sub": map[string]any{"deep": 4317}}}}
+			if o.errCode != -1 || !vEq(wantV, o.tsm) {
+				out.Oracle("internal-wrapper-leaked", term, fmt.Sprintf("ToStringMap() = %#v, the typed values are %#v (class %d)", o.tsm, wantV, o.errCode))
 			}
 		}
+		// (the heavy corpus cases — many values, 1000 references — are emitted BETWEEN the families so that they land
+		// in different Coq shards: see heavyManyValues / heavyManyRefs below)
+		// 150 / 999 / 1000 distinct references in one value all resolve (regression of finding C12-MANYREFS: the former
+		// bound of 1000 rounds refused the 1000)
+	}
+
+	if !heavyManyRefs(150) {
+		return
 	}
 
 	// -- guarded probe: a reference cycle that doubles per round (1 case, child process)
@@ -1237,11 +1389,9 @@ func TestVerifC12(t *testing.T) {
 	nTok := vBudget(450, 12)
 	for i := 0; i < nTok; i++ {
 		r := vNewRand(uint64(1000003 + i))
-		def := ""
-		if r.Intn(3) > 0 {
-			def = "env"
-		}
-		c := vNewCfg(def, "env")
+		def := vPickDef(r)
+		c := vNewCfg(def, vSchemesFor(def)...)
+		st["tok-default-scheme-"+def]++
 		names := vTokTable(r, c)
 		m := map[string]any{}
 		want := map[string]string{}
@@ -1288,6 +1438,10 @@ func TestVerifC12(t *testing.T) {
 				out.Oracle("token-interpreter", term, fmt.Sprintf("key %s input %q: string field decode differs from reference interpreter %q", k, m[k], w))
 			}
 		}
+	}
+
+	if !heavyManyRefs(1000) {
+		return
 	}
 
 	// -- family 2: wild strings
@@ -1375,6 +1529,10 @@ func TestVerifC12(t *testing.T) {
 		}
 	}
 
+	if !heavyManyValues(1) {
+		return
+	}
+
 	// -- family 4: deep values.  Lists and maps (in the source, and as YAML provider values reached through ONE
 	// whole-value or embedded reference) whose members are token strings needing DIFFERENT numbers of rounds
 	// (references to level-0 entries and to level-1 entries that contain references again), consumed through
@@ -1383,11 +1541,9 @@ func TestVerifC12(t *testing.T) {
 	nDeep := vBudget(220, 12)
 	for i := 0; i < nDeep; i++ {
 		r := vNewRand(uint64(4000003 + i))
-		def := ""
-		if r.Intn(3) > 0 {
-			def = "env"
-		}
-		c := vNewCfg(def, "env", "tt")
+		def := vPickDef(r)
+		c := vNewCfg(def, vSchemesFor(def, "tt")...)
+		st["deep-default-scheme-"+def]++
 		d := vNewDeep(r, c)
 		m := map[string]any{}
 		wantS := map[string]string{}
@@ -1518,6 +1674,13 @@ func TestVerifC12(t *testing.T) {
 				out.Oracle("deep-text", term, fmt.Sprintf("key %s = %v: a map[string]string field receives %v (ok=%v), the reference interpreter gives %v", k, m[k], dd.m, dd.mo, w))
 			}
 		}
+	}
+
+	if !heavyManyValues(2) {
+		return
+	}
+	if vTier() != "quick" && !heavyManyRefs(999) {
+		return
 	}
 
 	// -- family 5: '$' in reference names.  One key per case (the error is attributable); the providers HAVE an
